@@ -25,6 +25,9 @@ pub mod c17;
 pub mod c18;
 pub mod c19;
 pub mod c20;
+pub mod c22;
+pub mod c30;
+pub mod c31;
 
 pub fn all() -> Vec<Prop> {
     vec![
@@ -51,6 +54,9 @@ pub fn all() -> Vec<Prop> {
         c18::prop(),
         c19::prop(),
         c20::prop(),
+        c22::prop(),
+        c30::prop(),
+        c31::prop(),
     ]
 }
 
@@ -59,6 +65,8 @@ pub fn aux(id: &str, args: &[String]) -> i32 {
     match id {
         "C14" => c14::aux(args),
         "C17" => c17::aux(args),
+        "C22" => c22::aux(args),
+        "C31" => c31::aux(args),
         _ => {
             eprintln!("no aux entry for {}", id);
             4
